@@ -205,6 +205,25 @@ func (e *Engine) checkProperty(prop string, o runOpts) int {
 	for i := 0; i < n; i++ {
 		<-donec
 	}
+	// second chance for undecided goals: alone, with a longer timeout (avoids load-induced timeouts)
+	for c, gs := range byCtx {
+		for _, g := range gs {
+			if g.Status == "unknown" && !g.ExpectSat {
+				if o.Verbose {
+					fmt.Println("gvc: retrying", g.Name)
+				}
+				discharge(c, []*Goal{g}, dischargeOpts{Timeout: 3 * o.Timeout, All: o.All, Workdir: o.Workdir, Par: 1})
+				g.Retried = true
+			}
+		}
+	}
+	if os.Getenv("GVC_SLOW") != "" {
+		for _, j := range jobs {
+			if j.g.Secs > 1.5 {
+				fmt.Printf("slow: %-70s %5.1fs %s %s (in %s)\n", j.g.Name, j.g.Secs, j.g.Status, j.g.Solver, j.res.Key)
+			}
+		}
+	}
 	// summarise
 	sum := checkSummary{ByKind: map[string]int{}, BySolver: map[string]int{}}
 	sum.Functions = sortedKeys(done)
